@@ -443,7 +443,12 @@ class Fn:
     def expr_of_place(self, place, depth=24):
         e = self.expr_of_local(place[0], depth)
         for el in place[1:]:
-            e = _project(e, el)
+            if isinstance(el, list) and el[0] == 'i':
+                e = ('index', e, self.expr_of_local(el[1], depth - 1))
+            elif isinstance(el, list) and el[0] == 'c':
+                e = ('index', e, ('const', -el[1] - 1 if el[2] else el[1], str(el[1]), 'usize'))
+            else:
+                e = _project(e, el)
         return e
 
     def expr_of_op(self, op, depth=24):
@@ -600,7 +605,7 @@ def canon(e):
     elif k == 'aggr':
         r = ('aggr', e[1], e[2], tuple(canon(a) for a in e[3]))
     elif k == 'index':
-        r = ('index', canon(e[1]))
+        r = ('index', canon(e[1])) + tuple(canon(x) for x in e[2:])
     else:
         r = e
     _canon_cache[e] = r
@@ -629,6 +634,14 @@ def has_field(e, owner, field):
     ch, _ = field_chain(e)
     for (o, f) in ch:
         if f == field and (owner is None or o == owner or o.endswith('::' + owner)):
+            return True
+    return False
+
+
+def mentions_field(e, owner, field):
+    """some sub-expression reads through owner.field (anywhere in the tree)"""
+    for x in walk(e):
+        if x[0] == 'field' and x[3] == field and (owner is None or x[2] == owner or x[2].endswith('::' + owner)):
             return True
     return False
 
@@ -1208,3 +1221,17 @@ def camel_to_kebab(s):
             out.append('-')
         out.append(c.lower())
     return ''.join(out)
+
+
+def sequences(fn, match, cap=48, maxlen=40):
+    """set of event sequences over all entry→return paths; match(bi, term) -> label or None.
+    Loops are cut by `maxlen` (Cap raised)."""
+    def on_term(us, bi, t):
+        ev = match(bi, t)
+        if ev is None:
+            return us
+        if len(us) >= maxlen:
+            raise Cap('event sequence too long in %s' % fn.name)
+        return us + (ev,)
+    exits, ins, parent = scan(fn, (), None, on_term, cap=cap)
+    return set(us for (bi, us, rc, st) in exits)
